@@ -1841,6 +1841,13 @@ impl Db {
 		Ok(())
 	}
 
+	/// Verification hook: route the result of a stepping call through the background error
+	/// slot exactly as the worker threads do with the result of their loop.
+	#[cfg(pdb_verif)]
+	pub fn verif_store_err(&self, result: Result<()>) {
+		self.inner.store_err(result)
+	}
+
 	#[cfg(feature = "instrumentation")]
 	pub fn process_reindex(&self) -> Result<()> {
 		self.inner.process_reindex()?;
